@@ -34,8 +34,8 @@ ASSUMPTIONS = ["real MPI transport, mpi4py pickling and message matching with ta
                "are outside the model",
                "floating-point addition is deterministic given operands and order (IEEE-754), so equal trees give equal bits"]
 
-KINDS = ["int", "float", "list", "ndarray", "field", "multifield"]
-TY = {"int": "plain", "float": "plain", "list": "plain", "ndarray": "ndarray", "field": {"field": "plain"},
+KINDS = ["int", "float", "npfloat", "list", "ndarray", "ndarray0", "field", "multifield"]
+TY = {"int": "plain", "float": "plain", "list": "plain", "npfloat": "plain", "ndarray0": "ndarray", "ndarray": "ndarray", "field": {"field": "plain"},
       "multifield": {"multifield": 2}}
 POOL = [1e16, 1.0, -1e16, 3.0, 1e-3, -1.0, 2.0 ** 53, -(2.0 ** 53), 0.1, 7.0, 1e-17, -3.0]
 
@@ -50,6 +50,10 @@ def _summand(kind, vals, i):
         return int(v)
     if kind == "float":
         return float(v)
+    if kind == "npfloat":      # numpy scalar (what energies/values look like)
+        return np.float64(v)
+    if kind == "ndarray0":     # 0-d array: `_send` has to restore the shape after ascontiguousarray
+        return np.array(float(v))
     if kind == "list":  # `+` is concatenation: not commutative, exposes swapped operands (optimize_kl sums lists)
         return [[i, float(v).hex()]]
     arr = np.array([v, -v, vals[(i + 1) % len(vals)]], dtype=np.float64)
@@ -69,7 +73,7 @@ def _plain(kind, vals, i):
     v = vals[i]
     if kind == "int":
         return int(v)
-    if kind == "float":
+    if kind in ("float", "npfloat", "ndarray0"):
         return float(v)
     if kind == "list":
         return [[i, float(v).hex()]]
@@ -85,8 +89,10 @@ def _enc(kind, x):
         return [int(x)]
     if kind == "list":
         return [list(t) for t in x]
-    if kind == "float":
+    if kind in ("float", "npfloat"):
         return [float(x).hex()]
+    if kind == "ndarray0":
+        return [float(x).hex(), list(np.shape(x))]
     if kind == "ndarray":
         return [float(t).hex() for t in np.asarray(x).ravel()]
     if kind == "field":
@@ -101,8 +107,10 @@ def _enc_plain(kind, x):
         return [int(x)]
     if kind == "list":
         return [list(t) for t in x]
-    if kind == "float":
+    if kind in ("float", "npfloat"):
         return [float(x).hex()]
+    if kind == "ndarray0":
+        return [float(x).hex(), []]
     return [float(t).hex() for t in np.asarray(x).ravel()]
 
 
@@ -154,22 +162,41 @@ def _serial(case):
 
 
 def _run_real(cases, p, seed):
-    """-> list per case of dict(calls=[per rank], values=[per rank], fail=None|str)"""
-    res = fm.run(p, _job, cases, seed=seed, timeout=300.0)
-    outs = []
-    segs = [res.segments(r) for r in range(p)]
-    for ci, c in enumerate(cases):
-        calls = [segs[r].get(str(ci)) for r in range(p)]
-        vals = [res.values[r][ci] if res.returned[r] and ci < len(res.values[r]) else None for r in range(p)]
-        outs.append(dict(calls=calls, values=vals, fail=None))
-    if not res.ok:
-        # locate: the first case some rank did not complete
-        bad = min((len(res.values[r]) if res.returned[r] else _last_mark(res, r)) for r in range(p))
+    """-> list per case of dict(calls=[per rank], values=[per rank], fail=None|info).
+    A case that does not complete (deadlock, a rank failing) ends its batch; the cases after it are run in a new batch,
+    so one failing input costs exactly one case."""
+    outs = [None] * len(cases)
+    start, end = 0, len(cases)
+    guard = 0
+    while start < len(cases) and guard < 4 * len(cases) + 4:
+        guard += 1
+        chunk = cases[start:end]
+        res = fm.run(p, _job, chunk, seed=seed, timeout=300.0)
+        if res.ok:
+            segs = [res.segments(r) for r in range(p)]
+            for ci in range(len(chunk)):
+                outs[start + ci] = dict(calls=[segs[r].get(str(ci)) for r in range(p)],
+                                        values=[res.values[r][ci] for r in range(p)], fail=None)
+            start, end = end, len(cases)
+            continue
+        # the first case some rank did not complete
+        done = min((len(res.values[r]) if res.returned[r] else _last_mark(res, r)) for r in range(p))
+        done = min(done, len(chunk) - 1)
+        if done > 0:
+            end = start + done          # run the completed prefix on its own (values live in the ranks until they return)
+            continue
         why = "deadlock" if res.deadlock and not res.timed_out else ("timeout" if res.timed_out else "rank-failed")
-        info = dict(kind=why, blocked=(res.deadlock or {}).get("blocked"), errors=res.errors)
-        for ci in range(min(bad, len(cases) - 1), len(cases)):
-            outs[ci]["fail"] = info
+        outs[start] = dict(calls=None, values=None,
+                           fail=dict(kind=why, blocked=(res.deadlock or {}).get("blocked"), errors=res.errors))
+        start, end = start + 1, len(cases)
+    for i, o in enumerate(outs):
+        if o is None:
+            outs[i] = dict(calls=None, values=None, fail=dict(kind="not-run", blocked=None, errors=None))
     return outs
+
+
+def _partial(res, r, ci):
+    return None
 
 
 def _last_mark(res, r):
@@ -190,7 +217,7 @@ def oracle(case):
         return None  # rejected inputs are not in the scope of the property
     ser = _serial(case)
     want = _enc_plain(kind, _eval_tree(_ref_tree(n), lambda i: _plain(kind, vals, i)))
-    sig0 = {"site": "allreduce_sum"}
+    sig0 = {"site": "allreduce_sum", "payload": "zero-dim-array" if kind == "ndarray0" else "other"}
     if ser != want:
         return (f"serial allreduce_sum over {n} {kind} summands {vals} returns {ser}, the pairwise tree gives {want}",
                 dict(sig0, what="serial-tree"))
@@ -240,6 +267,13 @@ def _mkvals(rng, n, kind):
     return [rng.choice(POOL) for _ in range(n)]
 
 
+def _model_op(c):
+    op = dict(op="program", counts=c["counts"], ty=TY[c["kind"]])
+    if c["kind"] == "ndarray0" and sum(c["counts"]) >= 2:
+        op["bty"] = "plain"      # a sum of zero-dimensional arrays is a numpy scalar: `_bcast` sees a plain object
+    return op
+
+
 def _check_batch(ctx, cases, p, seed, model):
     real = _run_real(cases, p, seed)
     for c, o, m in zip(cases, real, model):
@@ -253,7 +287,8 @@ def _check_batch(ctx, cases, p, seed, model):
             ctx.stat("real-run-failed")
             ctx.counterexample(c, f"allreduce_sum with partition {c['counts']} ({c['kind']}) does not complete under "
                                   f"synchronous sends: {o['fail']}",
-                               {"site": "allreduce_sum", "what": o["fail"]["kind"]})
+                               {"site": "allreduce_sum", "payload": "zero-dim-array" if c["kind"] == "ndarray0" else "other",
+                                "what": o["fail"]["kind"]})
             continue
         if "error" in m:
             impl = o["values"][0] if all(v == o["values"][0] for v in o["values"]) else {"values": o["values"]}
@@ -275,13 +310,26 @@ def _check_batch(ctx, cases, p, seed, model):
             ser = _serial(c)
             if ser != want:
                 ctx.counterexample(c, f"serial allreduce_sum returns {ser}, distributed/pairwise tree {want}",
-                                   {"site": "allreduce_sum", "what": "serial-tree"})
+                                   {"site": "allreduce_sum", "payload": "zero-dim-array" if c["kind"] == "ndarray0" else "other",
+                                    "what": "serial-tree"})
 
 
 def run(ctx):
     import numpy  # noqa: F401  (imported before forking so the children do not pay for it)
     import nifty.cl  # noqa: F401
     rng = ctx.rng
+    # corpus first: minimised past failures are replayed through the oracle
+    import json
+    import os
+    cdir = os.path.join(os.path.dirname(os.path.dirname(os.path.dirname(os.path.abspath(__file__)))), "corpus", ID)
+    for fn in sorted(os.listdir(cdir)) if os.path.isdir(cdir) else []:
+        c = json.load(open(os.path.join(cdir, fn))).get("case")
+        if c:
+            ctx.stat("corpus")
+            ctx.case(c, nontrivial=True)
+            r = oracle(c)
+            if r:
+                ctx.counterexample(c, *r)
     N, P = ctx.n(5, 8), ctx.n(3, 4)
     by_p = {}
     # exhaustive block ---------------------------------------------------------------------------
@@ -319,7 +367,7 @@ def run(ctx):
     # ONE model call for everything (starting the Lean driver is the expensive part on a loaded machine) -------
     ser_cases = [dict(counts=[n], kind=k, vals=_mkvals(rng, n, k)) for n in range(0, ctx.n(12, 40)) for k in ("float", "field")]
     flat = [(p, c) for p, cases in sorted(by_p.items()) for c in cases]
-    outs = ctx.model(DRIVER, [dict(op="program", counts=c["counts"], ty=TY[c["kind"]]) for _, c in flat]
+    outs = ctx.model(DRIVER, [_model_op(c) for _, c in flat]
                      + [dict(op="serial", n=len(c["vals"])) for c in ser_cases])
     mod_by_p = {}
     for (p, c), m in zip(flat, outs):
